@@ -125,6 +125,156 @@ func randScalar(r *core.Rand) *big.Int {
 	}
 }
 
+// extremeX1 lists nonces k whose point [k]G has an x coordinate in the top 2^-32 sliver of
+// the field, x1 >= 2n - 2^256, so that e + x1 can reach 2n: r = (e + x1) mod n then needs
+// n taken off twice, in signing and in verification. Such k cannot be constructed, only
+// found by walking about 2^32 multiples of G; these two were found that way (by the
+// author of seeded change C02-9) and are verified against the reference model on first use.
+var extremeX1 = []string{
+	"a984afe9ed39a5b13ba57275e242513abcca3227092c2792addec65636256175",
+	"a984afe9ed39a5b13ba57275e242513abcca3227092c2792addec6568ba609ce",
+}
+
+var extremeChecked bool
+
+// extremeNonce returns one of the listed nonces (or its negative, which has the same x1)
+// together with x1.
+func extremeNonce(r *core.Rand) (k, x1 *big.Int) {
+	if !extremeChecked {
+		bound := new(big.Int).Lsh(ref.SM2N, 1)
+		bound.Sub(bound, new(big.Int).Lsh(big.NewInt(1), 256))
+		for _, h := range extremeX1 {
+			if x := ref.MulG(ref.Int(unhx(h))).X; x.Cmp(bound) <= 0 {
+				panic("harness: listed extreme nonce " + h + " does not have x1 > 2n - 2^256 under the reference model")
+			}
+		}
+		extremeChecked = true
+	}
+	k = ref.Int(unhx(extremeX1[r.Intn(len(extremeX1))]))
+	x1 = ref.MulG(k).X
+	if r.Chance(1, 2) {
+		k = new(big.Int).Sub(ref.SM2N, k)
+	}
+	return
+}
+
+// extremeE returns a 32-byte digest e with e + x1 within a few units of 2n, well above
+// it, or at 2^256-1 (the sum is then >= 2n for the listed nonces). mode "r0" gives
+// e + x1 = 2n exactly (the candidate must be skipped: r = 0).
+func extremeE(r *core.Rand, x1 *big.Int, mode string) []byte {
+	twoN := new(big.Int).Lsh(ref.SM2N, 1)
+	e := new(big.Int).Sub(twoN, x1)
+	max := new(big.Int).Sub(new(big.Int).Lsh(big.NewInt(1), 256), big.NewInt(1))
+	if mode != "r0" {
+		switch r.Intn(5) {
+		case 0:
+			e.Add(e, big.NewInt(int64(r.PickInt(-2, -1, 1, 2, 3))))
+		case 1:
+			e.Set(max)
+		case 2: // somewhere between 2n - x1 and 2^256 - 1
+			room := new(big.Int).Sub(max, e)
+			off := ref.Int(r.Bytes(32))
+			e.Add(e, off.Mod(off, room))
+		case 3: // just below the point where the second subtraction starts
+			below := smallValue(r)
+			below.Rsh(below, 40)
+			e.Sub(e, below.Add(below, big.NewInt(1)))
+		default:
+			e.Add(e, new(big.Int).Lsh(big.NewInt(1), uint(r.Intn(200))))
+		}
+	}
+	if e.Sign() < 0 || e.Cmp(max) > 0 {
+		e.Set(max)
+	}
+	return ref.Pad32(e)
+}
+
+// residualPoint returns an off-curve pair (x, y) whose curve-equation residual is
+// structured: the two sides y^2 and x^3+ax+b, written as 256-bit strings either plainly
+// or in Montgomery form (times 2^256 mod p, the representation 64-bit implementations
+// compute in), differ only in a chosen window - one bit, one byte, one 64-bit limb, the
+// upper or the lower half of every limb. A comparison that looks at part of the
+// representation accepts such a pair; for unrelated values that needs a 2^-128 accident.
+func residualPoint(r *core.Rand) (x, y *big.Int, kind string, ok bool) {
+	p := ref.SM2P
+	R := new(big.Int).Lsh(big.NewInt(1), 256)
+	Rinv := new(big.Int).ModInverse(R, p)
+	mont := r.Chance(2, 3)
+	for tries := 0; tries < 60; tries++ {
+		x = ref.Int(r.Bytes(32))
+		x.Mod(x, p)
+		if r.Chance(1, 3) {
+			x = ref.MulG(randScalar(r)).X
+		}
+		rhs := new(big.Int).Mul(x, x)
+		rhs.Add(rhs, ref.SM2A)
+		rhs.Mul(rhs, x)
+		rhs.Add(rhs, ref.SM2B)
+		rhs.Mod(rhs, p)
+		m := new(big.Int).Set(rhs)
+		if mont {
+			m.Mul(m, R).Mod(m, p)
+		}
+		mb := ref.Pad32(m) // big endian: limb j (little-endian limb order) is bytes 32-8(j+1) .. 32-8j
+		mask := make([]byte, 32)
+		switch r.Intn(7) {
+		case 0:
+			kind = "bit"
+			i := r.Intn(256)
+			mask[i/8] = 1 << uint(i%8)
+		case 1:
+			kind = "byte"
+			mask[r.Intn(32)] = byte(1 + r.Intn(255))
+		case 2:
+			kind = "limb"
+			j := r.Intn(4)
+			copy(mask[8*j:8*j+8], r.Bytes(8))
+		case 3, 4:
+			kind = "upper-halves"
+			for j := 0; j < 4; j++ {
+				copy(mask[8*j:8*j+4], r.Bytes(4))
+			}
+		case 5:
+			kind = "lower-halves"
+			for j := 0; j < 4; j++ {
+				copy(mask[8*j+4:8*j+8], r.Bytes(4))
+			}
+		default:
+			kind = "all-but-one-limb"
+			j := r.Intn(4)
+			copy(mask, r.Bytes(32))
+			for i := 8 * j; i < 8*j+8; i++ {
+				mask[i] = 0
+			}
+		}
+		for i := range mb {
+			mb[i] ^= mask[i]
+		}
+		m2 := ref.Int(mb)
+		if m2.Cmp(p) >= 0 || m2.Cmp(m) == 0 {
+			continue
+		}
+		if mont {
+			m2.Mul(m2, Rinv).Mod(m2, p)
+			kind = "montgomery/" + kind
+		} else {
+			kind = "plain/" + kind
+		}
+		y = new(big.Int).ModSqrt(m2, p)
+		if y == nil {
+			continue
+		}
+		if r.Chance(1, 2) {
+			y.Sub(p, y)
+		}
+		if ref.OnCurve(x, y) {
+			continue
+		}
+		return x, y, kind, true
+	}
+	return nil, nil, "", false
+}
+
 // genPriv draws a valid private key, biased to the interesting encodings.
 func genPriv(r *core.Rand) []byte {
 	switch r.Weighted(10, 2, 2, 2, 2) {
